@@ -646,6 +646,8 @@ func runC02(c *Ctx) {
 	ruleMethodTable(c, p, "C02.methods")
 	ruleDict(c, p, "C02.dict")
 	ruleVersionArgs(c, p, "C02.version")
+	ruleBitFlags(c, p, messagePairs(p), "C02.flags")
+	ruleSettingsEnd(c, p, "C02.settings-end")
 	ruleTableLookups(c, p, "C02.tables")
 	rb := p.Method(core.PkgCompress, "Reader", "readBlock")
 	wr := p.Method(core.PkgCompress, "Writer", "Compress")
